@@ -7,11 +7,17 @@ B1  TLC explores MC_AmpLaw (AmpLaw.tla): nine amplifier types x gain settings be
 B2  every history TLC emits is replayed on ONE real Edfa built from equipment + element JSON (fixed_gain, variable_gain,
     openroadm ila / preamp / booster, advanced_model, dual_stage): spectral informations realising the emitted total
     powers are sent through it in sequence and effective_gain, att_in, total gain, gain-block output, number of output
-    channels and (flat profile) per-channel gain are compared with the spec's emitted values (+/-3 udB).
+    channels and (flat profile) per-channel gain are compared with the spec's emitted values (+/-3 udB).  Successive
+    crossings of a history sit on different frequency grids of the same channel count, and every crossing after the
+    first is also made on a FRESH amplifier with the same settings (the spec's NoMemory: a crossing depends on its own
+    load only).
 B3  every crossing (the B2 ones, and every Edfa crossing inside the real gnpy.topology.request.propagate on the shipped
     networks) is recorded and judged by Trace_LineElements (EffLaw, PadLaw, GainLaw, NeverAbovePmax, FlatProfile,
-    AseLaw, PoutReported, OutOfBand); NF gain sweeps of every single-stage amplifier entry of every shipped library are
-    judged as "Sweep" histories (NfMinAtFlatMax, NfMaxAtGainMin, NonIncreasing for min/max-NF models; DbForDbBelowMin).
+    AseLaw, NfRipple - channel NF = average + configured ripple at THAT channel's frequency -, NoMemory, PoutReported,
+    OutOfBand); NF gain sweeps of every amplifier entry of every shipped library (single and dual stage, from 4 dB below
+    the minimum gain to 3 dB into the extended range) are judged as "Sweep" histories (NfMinAtFlatMax, NfMaxAtGainMin,
+    NonIncreasing for min/max-NF models; NonIncreasingExtended for every model; ClampAboveMax for the polynomial model;
+    DbForDbBelowMin for single-stage models).
 """
 import copy
 import json
@@ -83,12 +89,14 @@ def check_library_matches(amp):
         raise Machinery(f'MC_AmpLaw constants for {amp["id"]} {exp} differ from the library {got}')
 
 
-def load_si(pin_raw_udb, var):
+def load_si(pin_raw_udb, var, grid=0):
     """a spectral information whose in-band channels total pin_raw (N equal channels, or a +/-2 dB ramp with the same
-    total), plus var.nOut channels outside the amplifier band"""
+    total), plus var.nOut channels outside the amplifier band; grid: which of the frequency grids (same channel
+    count, shifted by half the channel spacing) carries the load"""
     from gnpy.core.info import create_arbitrary_spectral_information
     n = var['nIn']
-    f_in = F0_IN + 50e9 * np.arange(n) * (96 // n)           # spread over the band
+    step = 50e9 * (96 // n)
+    f_in = F0_IN + step * np.arange(n) + grid * step / 2       # spread over the band
     shape = np.linspace(-2.0, 2.0, n) if var['ramp'] else np.zeros(n)
     w = 10 ** (shape / 10)
     p_in = w / w.sum() * 1e-3 * 10 ** (pin_raw_udb / 1e7)
@@ -123,11 +131,17 @@ def replay_history(js, idx, chk, stats, traces):
                 f"|{'after a saturating crossing' if earlier_sat else 'first or after unsaturated crossings'}"
         chk.case(f"{amp['id']}|g={st['gainTarget']}|t={st['tilt']}|v={var['inVoa']}/{var['outVoa']}/{var['nIn']}/{var['ramp']}"
                  f"|{[x['pinRaw'] for x in hist[:k + 1]]}", nontrivial=h['sat'] or h['regime'] != 'inrange')
-        si = load_si(h['pinRaw'], var)
+        si = load_si(h['pinRaw'], var, h['grid'])
         try:
             with Recording() as rec:
                 el(si)
             e = L.edfa_event(rec.events[-1], st['gainTarget'] / 1e6)
+            if k > 0:
+                # NoMemory: the same load through a fresh amplifier with the same settings is the reference
+                ref = real_edfa(amp['id'], st['gainTarget'] / 1e6, st['tilt'] / 1e6, var['inVoa'] / 1e6, var['outVoa'] / 1e6)
+                with Recording() as rec2:
+                    ref(load_si(h['pinRaw'], var, h['grid']))
+                L.with_fresh_reference(e, L.edfa_event(rec2.events[-1], st['gainTarget'] / 1e6))
         except Exception as ex:                                          # noqa
             chk.violation(f'B2|{shape}|exception|{type(ex).__name__}', dict(case=js, step=k, exception=traceback.format_exc()[-1200:]))
             return
@@ -191,6 +205,15 @@ def synthetic_library(entries, chk):
             continue
         raw['Edfa'].append(ent)
     chk.cov['sweep_synthetic_entries_refused_by_loader'] = refused
+    # a dual stage whose booster is a polynomial-NF (advanced_model) amplifier, and one whose preamp is
+    base = {e['type_variety']: e for e in L.base_eqpt()['Edfa']}
+    raw['Edfa'] += [copy.deepcopy(base[k]) for k in ('std_medium_gain', 'std_low_gain', 'high_detail_model_example')]
+    raw['Edfa'] += [{'type_variety': 'verif_dual_poly_booster', 'type_def': 'dual_stage', 'gain_min': 25,
+                     'preamp_variety': 'std_medium_gain', 'booster_variety': 'high_detail_model_example',
+                     'allowed_for_design': False},
+                    {'type_variety': 'verif_dual_poly_preamp', 'type_def': 'dual_stage', 'gain_min': 25,
+                     'preamp_variety': 'high_detail_model_example', 'booster_variety': 'std_low_gain',
+                     'allowed_for_design': False}]
     return raw, _equipment_from_json(copy.deepcopy(raw), DEFAULT_EXTRA_CONFIG)
 
 
@@ -210,23 +233,29 @@ def sweep_traces(chk, synthetic):
             eq = load_equipments_and_configs(path, [], [])
         for ent in raw.get('Edfa', []):
             tdef = ent.get('type_def', 'variable_gain')
-            if tdef in ('dual_stage', 'multi_band'):
+            if tdef == 'multi_band':
                 continue
-            names = [ent['type_variety']]
-            tv = names[0]
+            tv = ent['type_variety']
             lib = eq['Edfa'][tv]
-            gmin, gmax = float(ent['gain_min']), float(ent['gain_flatmax'])
-            gains = sorted({round(g, 6) for g in list(np.arange(gmin - 4, gmax + 2 + 1e-9, step)) + [gmin, gmax] if g >= 0})
+            gmin = float(ent.get('gain_min', lib.gain_min))
+            gmax = float(ent.get('gain_flatmax', lib.gain_flatmax))           # dual stage: the loader's sum
+            # from 4 dB below the minimum gain to 3 dB into the extended range, with the two range ends on the grid
+            gains = sorted({round(g, 6) for g in list(np.arange(gmin - 4, gmax + 3 + 1e-9, step)) +
+                            [gmin, gmax, gmax + 1.5, gmax + 3] if g >= 0})
             fmin, fmax = lib.f_min, lib.f_max
             nch = 4
             freqs = np.linspace(fmin + 100e9, fmax - 100e9, nch)
+            # low enough that the highest gain of the sweep is not clamped (configuration arithmetic)
+            pch = 1e-3 * 10 ** (min(-30.0, float(lib.p_max) - (gmax + 3) - 10 * np.log10(nch) - 1) / 10)
+            rip_tab = np.atleast_1d(np.asarray(lib.nf_ripple, dtype=float))
+            nf_rip = np.interp(freqs, np.linspace(fmin, fmax, len(rip_tab)), rip_tab)
             pts = []
             for g in gains:
                 topo = {'elements': [{'uid': 'a', 'type': 'Edfa', 'type_variety': tv,
                                       'operational': {'gain_target': g, 'tilt_target': 0, 'out_voa': 0}}], 'connections': []}
                 el = next(iter(network_from_json(topo, eq).nodes()))
-                si = create_arbitrary_spectral_information(frequency=freqs, pch=1e-6, baud_rate=32e9, slot_width=50e9,
-                                                           tx_osnr=40, tx_power=1e-6)
+                si = create_arbitrary_spectral_information(frequency=freqs, pch=pch, baud_rate=32e9, slot_width=50e9,
+                                                           tx_osnr=40, tx_power=pch)
                 try:
                     el(si)
                 except Exception as ex:                                  # noqa
@@ -236,12 +265,13 @@ def sweep_traces(chk, synthetic):
                     break
                 if abs(el.effective_gain - g) > 1e-9:
                     raise Machinery(f'sweep of {tv}: gain clamped at {g}')
-                nf_avg = float(np.mean(np.asarray(el.nf) - np.asarray(el.interpol_nf_ripple)))
+                nf_avg = float(np.mean(np.asarray(el.nf) - nf_rip))
                 pts.append({'g': udb(g), 'nf': udb(nf_avg)})
             if pts is None:
                 continue
             is_mm = 1 if tdef == 'variable_gain' else 0
             ev = {'k': 'Sweep', 'typeDef': tdef, 'gainMin': udb(gmin), 'flatMax': udb(gmax), 'minmax': is_mm,
+                  'poly': 1 if tdef == 'advanced_model' else 0, 'dual': 1 if tdef == 'dual_stage' else 0,
                   'nfMin': udb(ent.get('nf_min', 0)) if is_mm else 0, 'nfMax': udb(ent.get('nf_max', 0)) if is_mm else 0,
                   'pts': pts}
             traces.append({'name': f'sweep {fname} {tv}', 'ev': [ev]})
@@ -397,9 +427,12 @@ def run(chk):
                         event={k: (v if k != 'pts' else v[:4]) for k, v in sw[0]['ev'][0].items()}))
     chk.assume('set gain of a designed amplifier = the gain the design wrote, captured before any propagation; '
                'total input power = signal + noise of the in-band channels after the input VOA')
-    chk.assume('NF itself is taken from Edfa.nf (AseLaw: ASE added = h f B NF at the input); the NF value is constrained by '
-               'the sweep laws for min/max-NF (variable_gain) entries and by DbForDbBelowMin for all single-stage entries; '
-               'polynomial / OpenROADM NF curves as such are numeric and not decided by the integer specification')
+    chk.assume('NF itself is taken from Edfa.nf (AseLaw: ASE added = h f B NF at the input); the NF value is constrained per '
+               'channel by NfRipple (configured ripple table interpolated at the channel frequency by the harness), by the sweep '
+               'laws for min/max-NF (variable_gain) entries, by NonIncreasingExtended (at and above gain_flatmax NF never rises '
+               'with gain) for every model, ClampAboveMax for the polynomial model and DbForDbBelowMin for single-stage entries; '
+               'the shape of polynomial / OpenROADM NF curves below gain_flatmax is numeric and not decided by the integer '
+               'specification (the shipped polynomial is not monotone there: +6 mdB between 24.75 and 25 dB)')
     chk.assume('dual-stage amplifiers: padding is not judged (the code defines none); amplifiers are crossed with >= 2 '
                'channels (one-channel spectra are covered by C07)')
     chk.assume('a channel whose edge lies within 1 MHz of the amplifier band edge is left unjudged by OutOfBand')
@@ -447,6 +480,33 @@ def _mut_out_voa_ignored():
                     'spectral_info.apply_gain_db(self.gprofile)')
 
 
+def _mut_ripple_cached():
+    """ripple / DGT interpolation reused when the channel count did not change"""
+    import gnpy.core.elements as E
+    orig = E.Edfa.interpol_params
+
+    def interpol_params(self, spectral_info):
+        stale = (self.interpol_nf_ripple, self.interpol_gain_ripple, self.interpol_dgt) \
+            if self.nch == spectral_info.number_of_channels else None
+        if stale is None:
+            return orig(self, spectral_info)
+        saved = E.interp
+        it = iter([stale[2], stale[1], stale[0]])
+        E.interp = lambda *a, **k: next(it)
+        try:
+            return orig(self, spectral_info)
+        finally:
+            E.interp = saved
+    E.Edfa.interpol_params = interpol_params
+
+
+def _mut_nf_poly_unclamped():
+    """polynomial NF evaluated beyond gain_flatmax (the gain deficit is allowed to go negative)"""
+    import gnpy.core.elements as E
+    L.mutate_source(E.Edfa, '_nf', 'dg = max(gain_flatmax - gain_target, 0)', 'dg = gain_flatmax - gain_target')
+
+
 MUTANTS = {'clamp_per_channel': _mut_clamp_per_channel, 'ase_at_output': _mut_ase_at_output,
            'padding_lost': _mut_padding_lost, 'wrong_mean_under_tilt': _mut_wrong_mean_under_tilt,
-           'nf_not_monotone': _mut_nf_not_monotone, 'out_voa_ignored': _mut_out_voa_ignored}
+           'nf_not_monotone': _mut_nf_not_monotone, 'out_voa_ignored': _mut_out_voa_ignored,
+           'ripple_cached': _mut_ripple_cached, 'nf_poly_unclamped': _mut_nf_poly_unclamped}
